@@ -13,7 +13,7 @@
 (* requires: returns a value or raises the documented error, bounded work, *)
 (* no exception in the event loop.                                         *)
 (***************************************************************************)
-EXTENDS Naturals, Sequences, FiniteSets, TLC
+EXTENDS Integers, Sequences, FiniteSets, TLC
 
 CONSTANTS Part    \* "msg" | "der" | "loops"
 
@@ -121,6 +121,26 @@ Iterations(cls, n, swallow) == IF cls = "exact" THEN n
 CountOutcome(cls) == IF cls = "exact" THEN "ok" ELSE "error"
 
 ---------------------------------------------------------------------------
+(* (5) channel sizes the peer announces (CHANNEL_OPEN / OPEN_CONFIRMATION):  *)
+(* window and maximum packet size, each tiny or huge, combined with what the *)
+(* endpoint derives from the PEER'S IDENTITY: for a peer whose version       *)
+(* string contains "dropbear", with compression in effect, asyncssh lowers   *)
+(* the packet size by one (connection.py, work-around for a dropbear bug) -  *)
+(* so the effective size can be 0 or -1.  The send loop (_flush_send_buf)    *)
+(* takes min(window, effective size) per iteration and must stop when that   *)
+(* is not positive.  SizesTruthy is the wrong variant whose guard is "size   *)
+(* is non-zero".                                                             *)
+Quirks == {"none", "dropbear_zlib"}
+SizeClasses == {"0", "1", "2", "max"}
+SizeVal(c) == CASE c = "0" -> 0 [] c = "1" -> 1 [] c = "2" -> 2 [] OTHER -> 2147483647  \* 2^32-1 in the driver
+SizeCases == { <<q, w, p>> : q \in Quirks, w \in SizeClasses, p \in SizeClasses }
+EffPkt(q, p) == IF q = "dropbear_zlib" THEN SizeVal(p) - 1 ELSE SizeVal(p)
+\* bytes taken from a non-empty send buffer by one iteration
+Takes(q, w, p) == LET e == EffPkt(q, p) m == IF SizeVal(w) < e THEN SizeVal(w) ELSE e
+                  IN IF m > 0 THEN m ELSE 0
+LoopGoesOn(q, w, p, truthy) == SizeVal(w) # 0 /\ (IF truthy THEN EffPkt(q, p) # 0 ELSE EffPkt(q, p) > 0)
+
+---------------------------------------------------------------------------
 VARIABLES case
 Init == \/ Part = "counts" /\ case \in CountCases
         \/ Part = "counts_swallow" /\ case \in CountCases
@@ -128,6 +148,8 @@ Init == \/ Part = "counts" /\ case \in CountCases
         \/ Part = "der" /\ case \in DerCases
         \/ Part = "loops" /\ case \in LoopCases
         \/ Part = "loops_unfixed" /\ case \in LoopCases
+        \/ Part = "sizes" /\ case \in SizeCases
+        \/ Part = "sizes_truthy" /\ case \in SizeCases
 Next == UNCHANGED case
 Spec == Init /\ [][Next]_case
 
@@ -141,6 +163,11 @@ LoopProgress ==
 CountBounded ==
     Part \in {"counts", "counts_swallow"} =>
         Iterations(case[2], case[3], Part = "counts_swallow") <= case[3] + 1
+
+\* an iteration of the send loop that takes nothing ends the loop
+SizeProgress ==
+    Part \in {"sizes", "sizes_truthy"} =>
+        (Takes(case[1], case[2], case[3]) = 0 => ~LoopGoesOn(case[1], case[2], case[3], Part = "sizes_truthy"))
 
 Emit == PrintT(ToString(<<"SCRIPT", case, Part>>))
 =============================================================================
